@@ -437,6 +437,10 @@ fn snap_close_times(text: &str) -> Option<String> {
 }
 
 fn gen_text_case(t: &mut Tape, avoid: Avoid) -> (String, &'static str) {
+    // scale / geometry (about 0.5 % of the cases): very long lines, very many lines, big sliders, hostile geometry
+    if t.chance(1) && t.chance(50) {
+        return crate::gen::doc::gen_scale_doc(t);
+    }
     match t.weighted(&[7, 3]) {
         0 => (gen_accepted(t, avoid, 8).text(), "generated"),
         _ => {
